@@ -211,6 +211,49 @@ def canonical_rule(F, R):
                    "treat it as different from the same number as a fixnum" % (fn.short(), e[3]), fn.loc(e[3]),
                    sample={"verdict": why})
     R.floor("C10.d", "direct BigNum constructions", n, 10)
+    # rationals: the same discipline, with a closed set of constructors
+    nr = 0
+    conv = {"Rational": r"\{impl IntoSteelVal for Ratio<i32>\}::into_steelval$",
+            "BigRational": r"\{impl IntoSteelVal for Ratio<BigInt>\}::into_steelval$"}
+    seen_conv = set()
+    for name, fn in sorted(F.fns.items()):
+        if not name.startswith("steel::"):
+            continue
+        for i, _, e in fn.events("agg"):
+            if e[1] != "SteelVal" or e[2] not in conv:
+                continue
+            nr += 1
+            key = "%s / constructs SteelVal::%s" % (fn.short(), e[2])
+            if re.search(r"\{impl Clone for SteelVal\}::clone$|::from_serializable_value$", name):
+                R.inst("C10.d", key + " (copy of an existing value)", True, sample=True, nontrivial=False)
+                continue
+            if not re.search(conv[e[2]], name):
+                R.inst("C10.d", key, False,
+                       "%s builds SteelVal::%s directly (line %s) instead of going through into_steelval: a ratio whose "
+                       "denominator is 1 stays a rational (integer?/exact-integer? false, = and equal? against the same "
+                       "integer false), and a big ratio that fits 32 bits stays in the big representation (equal?/hash differ "
+                       "from the small one)" % (fn.short(), e[2], e[3]), fn.loc(e[3]))
+                continue
+            seen_conv.add(e[2])
+            dom = fn.dominators()
+            isint = fn.call_blocks(r"::is_integer$")
+            falses = [lib.bool_branch(fn, b)[1] for b in isint]
+            ok = bool(isint) and any(f is not None and f in dom.get(i, ()) for f in falses)
+            why = "" if ok else "is not on the is_integer()==false edge"
+            if ok and e[2] == "BigRational":
+                fits = fn.call_blocks(r"::to_i32$")
+                sw = [d for d in dom.get(i, ()) if fn.blocks[d]["k"] == "switch" and fn.blocks[d]["on"] == "enum:Option"]
+                small = fn.call_blocks(conv["Rational"])
+                if len(fits) < 2 or not sw or not small:
+                    ok, why = False, "is not the fallback of a to_i32() test of numerator and denominator (which demotes to Rational32)"
+            R.inst("C10.d", key + " (canonicalising converter)", ok,
+                   "%s: the construction of SteelVal::%s %s — integral or small ratios are no longer demoted, so the same "
+                   "number exists in two representations that =, equal? and hash distinguish" % (fn.short(), e[2], why),
+                   fn.loc(e[3]), sample=True)
+    for v in conv:
+        if v not in seen_conv:
+            raise CheckError("C10.d: converter constructing SteelVal::%s not found" % v)
+    R.floor("C10.d", "direct Rational/BigRational constructions", nr, 5)
 
 
 def float_cast_rule(F, R):
